@@ -423,7 +423,7 @@ func (w *c28Worker) start() error {
 	w.cmd = exec.Command(exe)
 	w.cmd.Env = append(os.Environ(), "VERIF_C28_WORKER=1",
 		"VERIF_C28_SCRATCH="+filepath.Join(w.base, fmt.Sprintf("w%d", w.id)),
-		fmt.Sprintf("VERIF_C28_TIMEOUT_MS=%d", w.timeout.Milliseconds()), "GOTRACEBACK=all")
+		fmt.Sprintf("VERIF_C28_TIMEOUT_MS=%d", w.timeout.Milliseconds()), "GOTRACEBACK=all", "GOMAXPROCS=2")
 	w.in, _ = w.cmd.StdinPipe()
 	so, _ := w.cmd.StdoutPipe()
 	w.out = bufio.NewReaderSize(so, 1<<20)
